@@ -264,3 +264,23 @@ Proof.
     rewrite (completed_prefix _ _ Hfr j Ec).
     rewrite total_len_concat, Hblocks, split_blocks_concat, <- Hkind, str_eqb_refl. reflexivity.
 Qed.
+
+(* the announced transfer size equals the total payload of the blocks of the transfer *)
+Theorem tsize_is_payload c v : valid c ->
+  oack_get (t_neg c) "tsize" = Some v -> v = dec (total_len (t_blocks c)).
+Proof.
+  intros [Hnv [Hmax [Hkind Hwrap]]] Hv.
+  assert (Hneg : t_neg c = spec_negotiated (t_limits c) (spec_of c)).
+  { unfold t_neg. rewrite Hnv. apply negotiate_is_spec. }
+  assert (Hbs : (1 <= n_bs (t_neg c))%N).
+  { rewrite Hneg. apply n_bs_pos; [exact Hmax|]. apply spec_blksize_pos. exact Hmax. }
+  unfold oack_get in Hv. rewrite Hneg, spec_get_tsize in Hv.
+  destruct (s_tsize (spec_of c)) as [sz|] eqn:Ets; [|discriminate]. injection Hv as <-.
+  unfold spec_of, oack_spec in Ets. cbn [s_tsize] in Ets.
+  destruct (requested (t_options c) (lit "tsize")) as [s|]; [|discriminate].
+  destruct (str_eqb s (lit "0") && negb (t_netascii c)) eqn:E0; [|discriminate].
+  apply andb_true_iff in E0 as [_ Ena]. apply negb_true_iff in Ena.
+  unfold kind_consistent in Hkind. rewrite Ets in Hkind.
+  unfold t_blocks. rewrite Ena. rewrite octet_blocks_spec by lia.
+  rewrite total_len_concat, split_blocks_concat. now rewrite Hkind.
+Qed.
